@@ -2,3 +2,4 @@ pub mod c01;
 pub mod c14;
 pub mod c05;
 pub mod c03;
+pub mod c04;
